@@ -224,7 +224,7 @@ Definition all_finished (s : state) : bool := forallb finished (rs s).
 (* is any move of routine i enabled?  (select: some clause) *)
 Definition max_choice (r : routine) : nat :=
   match stk r with
-  | f :: _ => match fops f with OSelect cs :: _ => length cs | _ => 1 end
+  | f :: _ => match fops f with OSelect cs :: _ => S (length cs) | _ => 1 end
   | [] => 1
   end.
 Definition enabled (s : state) (i : nat) : bool :=
